@@ -804,6 +804,8 @@ pub const LV_STREAM_ID: &str = "illegal_stream_id";
 pub const LV_CLOSED_STREAM: &str = "frame_on_closed_stream";
 pub const LV_HPACK_SIZE: &str = "hpack_table_size_exceeded";
 pub const LV_HPACK_NOT_REDUCED: &str = "hpack_table_size_not_reduced";
+/// RFC 7541 4.2: several changes between two header blocks must signal the smallest size first
+pub const LV_HPACK_MIN_SIGNAL: &str = "hpack_smallest_size_not_signalled";
 pub const LV_HPACK_DECODE: &str = "hpack_decode_error";
 pub const LV_CONTINUATION: &str = "continuation_sequence";
 pub const LV_STREAM_STATE: &str = "stream_state_violation";
@@ -892,6 +894,8 @@ pub struct StreamState {
     pub sent_data: u64,
     /// times a DATA frame left the remote's window (stream or connection) at or below zero
     pub stalls: u64,
+    /// flow-controlled octets received on this stream since the remote last acknowledged a SETTINGS
+    pub flow_since_ack: u64,
 }
 
 impl StreamState {
@@ -984,6 +988,7 @@ pub struct H2Conn<S: Transport> {
     pub data_frames_in: u64,
     pub goaway_in: Option<(u32, u32)>,
     hpack_reduce_to: Option<usize>,
+    oversize_flagged: Option<usize>,
     /// "eof", "reset" or an error text once the connection ended
     pub close_kind: Option<String>,
 
@@ -1040,6 +1045,7 @@ impl<S: Transport> H2Conn<S> {
             data_frames_in: 0,
             goaway_in: None,
             hpack_reduce_to: None,
+            oversize_flagged: None,
             close_kind: None,
             reader: FrameReader::new(),
             partial: None,
@@ -1487,7 +1493,27 @@ impl<S: Transport> H2Conn<S> {
                 self.pending.push_back(ev);
             }
         }
+        // a frame whose header already announces more than we allow is judged at once (the rest of
+        // it may never come: after a desynchronisation the "length" is garbage)
+        if let Some((len, typ, flags, stream)) = self.reader.peek_header() {
+            let idx = self.frames_in.len();
+            let max_frame = self.lenient_limit(SET_MAX_FRAME_SIZE, DEFAULT_MAX_FRAME_SIZE);
+            if len > max_frame && self.oversize_flagged != Some(idx) {
+                self.oversize_flagged = Some(idx);
+                let info = FrameInfo { typ, flags, stream: stream & 0x7fff_ffff, len };
+                self.violate(
+                    LV_FRAME_SIZE,
+                    format!("incoming frame header {} announces more than our MAX_FRAME_SIZE {}", info.describe(), max_frame),
+                    idx,
+                );
+            }
+        }
         Ok(())
+    }
+
+    /// header of the frame currently being received, if at least 9 octets of it arrived
+    pub fn pending_header(&self) -> Option<FrameInfo> {
+        self.reader.peek_header().map(|(len, typ, flags, stream)| FrameInfo { typ, flags, stream: stream & 0x7fff_ffff, len })
     }
 
     /// Next decoded event, waiting at most `timeout`. Ok(None) = nothing within the timeout.
@@ -1573,17 +1599,17 @@ impl<S: Transport> H2Conn<S> {
         let k = self.settings_acked;
         let delta = self.iws_history.get(k).copied().unwrap_or(DEFAULT_INITIAL_WINDOW) as i64
             - self.iws_history.get(k - 1).copied().unwrap_or(DEFAULT_INITIAL_WINDOW) as i64;
-        if delta != 0 {
-            for s in self.streams.values_mut() {
-                if s.epoch < k {
-                    s.recv_window += delta;
-                }
+        for s in self.streams.values_mut() {
+            s.flow_since_ack = 0;
+            if s.epoch < k {
+                s.recv_window += delta;
             }
         }
         for (id, v) in values {
             self.local_settings.apply(id, v);
             if id == SET_HEADER_TABLE_SIZE && (v as usize) < self.dec.current_table_size {
-                self.hpack_reduce_to = Some(v as usize);
+                let t = self.hpack_reduce_to.map_or(v as usize, |m| m.min(v as usize));
+                self.hpack_reduce_to = Some(t);
             }
         }
         self.dec.set_limit(self.lenient_limit(SET_HEADER_TABLE_SIZE, DEFAULT_HEADER_TABLE_SIZE) as usize);
@@ -1620,7 +1646,7 @@ impl<S: Transport> H2Conn<S> {
         let sid = f.stream;
 
         let max_frame = self.lenient_limit(SET_MAX_FRAME_SIZE, DEFAULT_MAX_FRAME_SIZE);
-        if info.len > max_frame {
+        if info.len > max_frame && self.oversize_flagged != Some(idx) {
             self.violate(LV_FRAME_SIZE, format!("{} is longer than our MAX_FRAME_SIZE {}", info.describe(), max_frame), idx);
         }
 
@@ -1864,13 +1890,14 @@ impl<S: Transport> H2Conn<S> {
                 v.push((
                     LV_STREAM_WINDOW,
                     format!(
-                        "DATA of {flow} flow-controlled octets on stream {sid} with a stream window of {} (+{extra} not yet acknowledged)",
-                        s.recv_window
+                        "DATA of {flow} flow-controlled octets on stream {sid} with a stream window of {} (+{extra} not yet acknowledged) [stream opened under our SETTINGS #{}, {} received so far ({} since the last SETTINGS ACK), {} granted by WINDOW_UPDATE; INITIAL_WINDOW_SIZE history {:?}, {} of {} SETTINGS acknowledged]",
+                        s.recv_window, s.epoch, s.recv_flow, s.flow_since_ack, s.granted_updates, self.iws_history, self.settings_acked, self.settings_sent
                     ),
                 ));
             }
             s.recv_window -= flow;
             s.recv_flow += flow as u64;
+            s.flow_since_ack += flow as u64;
             s.recv_data += data.len() as u64;
             s.recv_frames += 1;
             if end_stream {
@@ -1910,14 +1937,21 @@ impl<S: Transport> H2Conn<S> {
             self.violate(LV_HPACK_SIZE, format!("dynamic table size update to {v} above our HEADER_TABLE_SIZE {lim}"), idx);
         }
         if let Some(target) = self.hpack_reduce_to.take() {
-            let first_ok = self.dec.last_size_updates.first().is_some_and(|(pos, _)| *pos == 0)
+            let limit = self.lenient_limit(SET_HEADER_TABLE_SIZE, DEFAULT_HEADER_TABLE_SIZE) as usize;
+            let signalled = self.dec.last_size_updates.first().is_some_and(|(pos, _)| *pos == 0)
                 && self.dec.last_size_updates.iter().any(|(_, v)| *v <= target);
-            if !first_ok {
+            if self.dec.current_table_size > limit {
+                let d = format!(
+                    "first header block after acknowledging a smaller HEADER_TABLE_SIZE: the encoder still uses a table of {} octets, our limit is {limit} (updates seen: {:?})",
+                    self.dec.current_table_size, self.dec.last_size_updates
+                );
+                self.violate(LV_HPACK_NOT_REDUCED, d, idx);
+            } else if !signalled {
                 let d = format!(
                     "first header block after acknowledging HEADER_TABLE_SIZE={target} does not start with a size update <= {target} (updates seen: {:?})",
                     self.dec.last_size_updates
                 );
-                self.violate(LV_HPACK_NOT_REDUCED, d, idx);
+                self.violate(LV_HPACK_MIN_SIGNAL, d, idx);
             }
         }
         let headers = match decoded {
